@@ -168,6 +168,15 @@ def candidates(tier, rnd):
             out.append((t2, "attr", la))
             t3 = TypeSpec("struct", [Variant(None, "named", [F("a", "A"), F("b", "RC")])], [("A", "RC")], shape="struct-generic-RC")
             out.append((t3, "attr", la))
+    # foreign attributes on the item (layout, lints, docs) must not change what Clone does
+    for deco in ("#[repr(C)]", "#[repr(align(8))]", "#[repr(transparent)]", "#[non_exhaustive]\n#[allow(dead_code)]\n/// documented"):
+        nf = 1 if "transparent" in deco else 2
+        t = TypeSpec("struct", [mk_variant(None, "named", nf, ["RC", "R"])], shape="struct-named%d-RC-R|%s" % (nf, deco.split("\n")[0]))
+        t.extra_attrs.append(deco)
+        out.append((t, "attr", "Clone"))
+    t = TypeSpec("enum", [mk_variant("V0", "tuple", 1, ["RC"]), mk_variant("V1", "named", 2, ["R", "RC"]), Variant("V2", "unit", [])], shape="enum-RC-R|#[repr(u8)]")
+    t.extra_attrs.append("#[repr(u8)]")
+    out.append((t, "attr", "Clone"))
     # generic wrappers, bound arguments (must not change behaviour)
     for la in ("Clone", "Clone(bound(A: Clone))", "Clone, bound(A)", "Clone(bound(..))"):
         t = TypeSpec("struct", [Variant(None, "named", [F("a", "A"), F("b", "R"), F("p", "core::marker::PhantomData<A>")])], [("A", "R")], shape="struct-generic")
